@@ -54,7 +54,10 @@ class Report:
         self.notes = []
         self.harness_errors = 0
 
-    def add_violations(self, vios):
+    def add_violations(self, vios, totals=None):
+        """vios: retained examples (a few per signature); totals: {repr(sorted(sig.items())): n}
+        with the full counts, used only for the numbers printed next to known findings."""
+        self._totals = totals or {}
         for v in vios:
             sig = v.get("sig", {})
             hit = None
@@ -65,7 +68,11 @@ class Report:
             if hit is not None:
                 key = hit.get("key", json.dumps(hit["match"], sort_keys=True))
                 what, n = self.known_hits.get(key, (hit["what"], 0))
+                tot = self._totals.get(repr(sorted(sig.items())))
                 self.known_hits[key] = (what, n + 1)
+                if tot:
+                    self._known_totals = getattr(self, "_known_totals", {})
+                    self._known_totals.setdefault(key, {})[repr(sorted(sig.items()))] = tot
             else:
                 self.violations.append(v)
 
@@ -106,7 +113,8 @@ class Report:
             f.write("\n")
         os.replace(tmp, path)
         for key, (what, n) in sorted(self.known_hits.items()):
-            print(f"KNOWN-FINDING: property={self.pid} {what} [{key}; {n} case(s)]")
+            tot = sum(getattr(self, "_known_totals", {}).get(key, {}).values()) or n
+            print(f"KNOWN-FINDING: property={self.pid} {what} [{key}; {tot} case(s)]")
         for n in self.notes[:10]:
             print("NOTE:", n)
         for p in replay_paths:
